@@ -19,6 +19,10 @@ func genomeLen(r *fw.Rng, thorough bool) int {
 	switch {
 	case x < 0.006:
 		// genome scale: coordinates beyond 2^14 and 2^15, flanks and records longer than any buffer
+		if r.Chance(0.3) {
+			// ... and beyond 2^16: SAM lines longer than 64 KiB, flanks longer than 2^15
+			return r.Range(66000, 80000)
+		}
 		return r.Range(16500, 34000)
 	case x < 0.70:
 		return r.Range(1, 80)
@@ -115,6 +119,16 @@ func runC01(c *fw.Ctx, idx int) fw.Result {
 	sf.Text = noFinalNL(r, sf.Text)
 	pad := r.Chance(0.5)
 	s, e, wk := window(r, L)
+	if L >= 66000 && r.Chance(0.7) {
+		// a window deep inside a long reference: both masked flanks are longer than 2^15
+		pad = true
+		s = r.Range(32770, L-32771)
+		e = r.Range(s, L-32770)
+		if e < s {
+			e = s
+		}
+		wk = "both"
+	}
 	wrap := pickWrap(r, L)
 	threads := pickThreads(r)
 
